@@ -183,14 +183,16 @@ c.may_raise.append(("Exception", None))
 # =========================================================================
 # threading / multiprocessing primitives used by the executor
 S.ghost("fut_n_exc", z3.ArraySort(T.IntS, T.IntS), "per future: number of set_exception calls")
-S.ghost("fut_exc", z3.ArraySort(T.IntS, T.IntS), "per future: the exception last set")
+S.ghost("fut_exc", z3.ArraySort(T.IntS, T.IntS), "per future: the exception last set", elem="obj")
 S.ghost("fut_n_res", z3.ArraySort(T.IntS, T.IntS), "per future: number of set_result calls")
-S.ghost("fut_res", z3.ArraySort(T.IntS, T.IntS), "per future: the result last set")
+S.ghost("fut_res", z3.ArraySort(T.IntS, T.IntS), "per future: the result last set", elem="obj")
 S.ghost("joined", z3.ArraySort(T.IntS, T.BoolS), "processes on which join() was called")
 S.ghost("killed", z3.ArraySort(T.IntS, T.BoolS), "processes on which kill_process_tree() was called")
 S.ghost("sem_released", z3.ArraySort(T.IntS, T.IntS), "per semaphore: number of release() calls")
 S.ghost("n_sentinels", T.IntS, "number of None sentinels successfully put on the call queue")
 S.ghost("started", z3.ArraySort(T.IntS, T.BoolS), "processes on which start() was called")
+S.ghost("pid_live", z3.ArraySort(T.IntS, T.BoolS), "pids of children that were started and not yet reaped")
+S.assumption("A-pids", "the keys of an executor's process table are pids of started, un-reaped children; the OS never gives a new child the pid of an un-reaped one")
 
 
 def _held_push(st, lock):
@@ -331,3 +333,159 @@ def _excepthook(eng, st, self_v, args, kwargs, node):
     from pyvc.values import VFn
     st.emit("excepthook", list(args), eng.site(node))
     return eng.call_user(VFn("opaque", t=z3.IntVal(-2001)), [], {}, st, node)
+
+
+# =========================================================================
+# work-id queue, weak references, wait(), processes, contexts
+S.ghost("work_ids", z3.ArraySort(T.IntS, T.BoolS), "content of the executor's queue.Queue of work ids (as a set)")
+S.ghost("referent", z3.ArraySort(T.IntS, T.IntS), "weakref -> its referent (fixed; liveness is volatile)", elem="obj")
+
+
+@_impl("queue.Queue.get", cite="queue.Queue.get(block=False): next id or queue.Empty")
+def _wq_get(eng, st, self_v, args, kwargs, node):
+    from pyvc.values import fresh_const
+    out = []
+    s = st.clone()
+    s.emit("wq_get_empty", [self_v], eng.site(node))
+    out.append(eng.raise_new(s, "queue.Empty"))
+    k = fresh_const("wid", T.IntS)
+    g = st.ghost_get("work_ids")
+    st.assume(z3.Select(g, k))
+    st.ghost_set("work_ids", z3.Store(g, k, z3.BoolVal(False)))
+    st.emit("wq_get", [self_v, VInt(k)], eng.site(node))
+    out.append(eng.val(st, VInt(k)))
+    return out
+
+
+@_impl("queue.Queue.put", cite="queue.Queue.put(x) on an unbounded queue: never blocks, never fails")
+def _wq_put(eng, st, self_v, args, kwargs, node):
+    g = st.ghost_get("work_ids")
+    st.ghost_set("work_ids", z3.Store(g, args[0].t, z3.BoolVal(True)))
+    st.emit("wq_put", [self_v, args[0]], eng.site(node))
+    return [eng.val(st, NONE)]
+
+
+c = S.ext("queue.Queue", cite="queue.Queue(): new empty queue")
+c.returns(T.Ref("queue.Queue"), fresh=True).modifies()
+
+
+@_impl("weakref.ref.__call__", cite="weakref.ref(): the referent or None once collected (volatile)")
+def _deref(eng, st, self_v, args, kwargs, node):
+    from pyvc.values import fresh_const, VRef
+    # the referent is fixed (ghost map weakref -> object); what is volatile is whether it is still alive
+    t = z3.Select(st.ghost_get("referent"), self_v.t)
+    st.assume(z3.And(t > 0, t < st.alloc))
+    dead = z3.Bool(__import__("pyvc.values", fromlist=["fresh_name"]).fresh_name("collected"))
+    out = []
+    for b, s in eng.branch(st, dead):
+        v = NONE if b else VRef(t, "ProcessPoolExecutor")
+        s.emit("deref", [self_v, v], eng.site(node))
+        out.append(eng.val(s, v))
+    return out
+
+
+@_impl("multiprocessing.connection.wait", cite="multiprocessing.connection.wait(objs): blocks until at least one is ready; returns a non-empty sublist of its argument")
+def _wait(eng, st, self_v, args, kwargs, node):
+    from pyvc.values import fresh_const, VAbs
+    from pyvc.state import QHyp
+    arg = args[0]
+    a = arg if isinstance(arg, VAbs) else eng.as_abs(arg, st)
+    timeout = args[1] if len(args) > 1 else kwargs.get("timeout", NONE)
+    sort = a.elem.comps[0]
+    mem = fresh_const("ready", z3.ArraySort(sort, T.BoolS))
+    n = fresh_const("nready", T.IntS)
+    st.assume(n >= 0)
+    if isinstance(timeout, type(NONE)):
+        w = fresh_const("ready_wit", sort)
+        st.assume(z3.And(n >= 1, z3.Select(mem, w), z3.Select(a.mem, w)))
+    st.qhyps.append(QHyp(sort, lambda k, mem=mem, am=a.mem: z3.Implies(z3.Select(mem, k), z3.Select(am, k)), "ready-subset"))
+    res = VAbs(mem, n, a.elem)
+    st.emit("wait", [a, res], eng.site(node))
+    return [eng.val(st, res)]
+
+
+@_impl("Connection.recv", cite="Connection.recv(): the next unpickled object: here a _ResultItem, a pid (int) or a _RemoteTraceback; unpickling may raise anything")
+def _recv(eng, st, self_v, args, kwargs, node):
+    from pyvc.values import fresh_const
+    out = []
+    # raises
+    s = st.clone()
+    e = s.new_obj("<exc>")
+    ct = fresh_const("exccls", T.IntS)
+    s.assume(S.exc_valid(ct, "BaseException"))
+    s.write_field(e, "cls", VInt(ct))
+    s.emit("recv_raises", [self_v, e], eng.site(node))
+    s.notes.append("recv raises")
+    out.append(("exc", s, e))
+    # a pid
+    s = st.clone()
+    pid = VInt(fresh_const("pid", T.IntS))
+    s.emit("recv", [self_v, pid], eng.site(node))
+    s.notes.append("recv:pid")
+    out.append(eng.val(s, pid))
+    # a _RemoteTraceback
+    s = st.clone()
+    rt = s.new_obj("<exc>")
+    s.write_field(rt, "cls", VInt(S.exc_ids["_RemoteTraceback"]) if "_RemoteTraceback" in S.exc_ids else VInt(S.exc_ids["Exception"]))
+    s.emit("recv", [self_v, rt], eng.site(node))
+    s.notes.append("recv:RemoteTraceback")
+    out.append(eng.val(s, rt))
+    # a result item
+    item = st.new_obj("_ResultItem")
+    st.emit("recv", [self_v, item], eng.site(node))
+    st.notes.append("recv:ResultItem")
+    out.append(eng.val(st, item))
+    return out
+
+
+@_impl("Process.join", cite="BaseProcess.join(): waits for the child and reaps it")
+def _pjoin(eng, st, self_v, args, kwargs, node):
+    g = st.ghost_get("joined")
+    st.ghost_set("joined", z3.Store(g, self_v.t, z3.BoolVal(True)))
+    pid, _ = st.read_field(self_v, "pid")
+    st.ghost_set("pid_live", z3.Store(st.ghost_get("pid_live"), pid.t, z3.BoolVal(False)))
+    st.emit("join", [self_v], eng.site(node))
+    return [eng.val(st, NONE)]
+
+
+c = S.ext("Process.is_alive", cite="BaseProcess.is_alive(): volatile")
+c.param("self", T.Ref("Process")).returns(T.Bool).modifies()
+c = S.ext("Process.kill", cite="BaseProcess.kill()")
+c.param("self", T.Ref("Process")).event("proc_kill", "self").modifies()
+
+
+@_impl("Process.start", cite="BaseProcess.start(): spawns the child; pid is set and is not the pid of another live child")
+def _pstart(eng, st, self_v, args, kwargs, node):
+    from pyvc.values import fresh_const
+    pid = fresh_const("newpid", T.IntS)
+    live = st.ghost_get("pid_live")
+    st.assume(z3.Not(z3.Select(live, pid)))       # A-pids (kernel)
+    st.ghost_set("pid_live", z3.Store(live, pid, z3.BoolVal(True)))
+    st.write_field(self_v, "pid", VInt(pid))
+    g = st.ghost_get("started")
+    st.ghost_set("started", z3.Store(g, self_v.t, z3.BoolVal(True)))
+    st.emit("start", [self_v, VInt(pid)], eng.site(node))
+    return [eng.val(st, NONE)]
+
+
+@_impl("Context.Process", cite="ctx.Process(target=, args=, env=): a new, unstarted process object; contexts other than loky reject env= with TypeError")
+def _ctx_process(eng, st, self_v, args, kwargs, node):
+    out = []
+    if "env" in kwargs:
+        s = st.clone()
+        s.notes.append("Process(env=) TypeError")
+        s.emit("Process_rejects_env", [], eng.site(node))
+        out.append(eng.raise_new(s, "TypeError"))
+    p = st.new_obj("Process")
+    st.emit("Process", [p, kwargs.get("target", NONE), kwargs.get("args", NONE), kwargs.get("env", NONE)], eng.site(node))
+    out.append(eng.val(st, p))
+    return out
+
+
+for nm in ("BoundedSemaphore", "Lock", "Semaphore", "RLock"):
+    c = S.ext(f"Context.{nm}", cite=f"ctx.{nm}(...): a new primitive")
+    c.param("self", T.Ref("Context")).param("value", T.Obj, default=NONE).returns(T.Ref("MPLock"), fresh=True).modifies()
+c = S.ext("threading.Lock", cite="threading.Lock(): a new lock")
+c.returns(T.Ref("threading.Lock"), fresh=True).modifies()
+c = S.ext("threading.RLock", cite="threading.RLock(): a new lock")
+c.returns(T.Ref("threading.RLock"), fresh=True).modifies()
